@@ -10,6 +10,7 @@
 (* observes.  One observation = one client step:                          *)
 (*                                                                         *)
 (*   t.op      "Update" | "Get" | "OpenPull" | "CloseStream" | "Other"      *)
+(*             | "TimedUpdate" | "Wait"                                     *)
 (*   t.pre     unmasked Get immediately before the step [ok, v]           *)
 (*   t.post    unmasked Get immediately after the step  [ok, v]           *)
 (*   t.code    status of the step's RPC ("OK", an error code, "PANIC")    *)
@@ -114,12 +115,37 @@ OpenFails(t) ==
                    \* nothing arrived within the harness' timeout: by itself not a verdict (c14.py reports it
                    \* as inconclusive unless the stream later delivers something else first, see above)
                    THEN {"pull-initial-value-not-received-in-time"}
-                   ELSE If(s.msgs[1].v = t.pre.v, "pull-does-not-start-with-current-value")
+                   \* with a read mask in the Pull request (s.mask, s.sub as for Get): the current value seen
+                   \* through that mask
+                   ELSE If(s.msgs[1].v = Project(t.pre.v, s.mask, s.sub), "pull-does-not-start-with-current-value")
             ELSE {}
         : j \in 1..Len(t.streams) }
 
+(***************************************************************************)
+(* Time.  Some servers start timed behaviour on an Update (a brightness    *)
+(* tween): "TimedUpdate" is an Update that carries a duration, and until   *)
+(* that behaviour is over or superseded the register may move by itself,   *)
+(* so nothing but the status is asserted about it.  A later successful     *)
+(* plain Update supersedes it.  "Wait" lets time pass (longer than the     *)
+(* timed behaviour): read-your-writes must hold after any delay, so when   *)
+(* no timed behaviour is pending (t.armed = FALSE) the register must not   *)
+(* have moved and whatever arrived on the open streams meanwhile must      *)
+(* carry the value of the register (an echo), not some other value.        *)
+(***************************************************************************)
+TimedFails(t) ==
+  If(t.code # "PANIC", "panic")
+  \cup (IF t.code # "OK" THEN If(~t.pre.ok \/ (t.post.ok /\ t.post.v = t.pre.v), "rejected-update-changed-get") ELSE {})
+
+WaitFails(t) ==
+  IF t.armed THEN {}
+  ELSE ReadOnlyFails(t)
+       \cup UNION { If(\A k \in 1..Len(t.streams[j].msgs) : ~t.pre.ok \/ t.streams[j].msgs[k].v = t.pre.v,
+                       "stream-change-without-update") : j \in 1..Len(t.streams) }
+
 Fails(t) ==
   CASE t.op = "Update"      -> UpdateFails(t)
+    [] t.op = "TimedUpdate" -> TimedFails(t)
+    [] t.op = "Wait"        -> WaitFails(t)
     [] t.op = "Get"         -> GetFails(t)
     [] t.op = "OpenPull"    -> OpenFails(t) \cup ReadOnlyFails(t)
     [] t.op = "CloseStream" -> ReadOnlyFails(t)
